@@ -97,7 +97,7 @@ CLAIMS.update({
 
 CLAIMS.update({
  "C02": dict(
-    text="Coq theorems for all inputs and schedules: in every step a mailbox stays as it is, loses its head or gains one message at its tail (c02_mailbox_order_step), a handler does not start its next port operation while a delivery is outstanding (c02_program_order), a delivery needs room and appends (c02_enqueue_at_tail); computed instance: the documented A->B, A->C->B triangle with capacity-1 mailboxes under every choice list of length <= 4. Tie: triangle benches (optional relay, 1-5 roots, capacities 1..3) on 1..16 threads vs Sim.v + causal-order oracle at B.",
+    text="Coq theorems for all inputs and schedules: in every step a mailbox stays as it is, loses its head or gains one message at its tail (c02_mailbox_order_step), a handler does not start its next port operation while a delivery is outstanding (c02_program_order), a delivery needs room and appends (c02_enqueue_at_tail); computed instance: the documented A->B, A->C->B triangle with capacity-1 mailboxes under every choice list of length <= 4. Tie: triangle benches (optional relay, 1-5 roots, capacities 1..3) on 1..16 threads vs Sim.v + causal-order oracle at B. Trace level: in any execution the messages a model has started processing are, in order, a prefix of (initial mailbox content ++ messages enqueued, in enqueue order) (c02_processed_prefix_of_enqueued, c02_processed_in_enqueue_order; c02_mailbox_trace).",
     note=SIMNOTE + "The trace-level statement is c02_mailbox_trace (+ _run): in ANY execution a mailbox is its initial content followed by the messages enqueued into it in enqueue order, minus the prefix consumed by its owner; together with c02_program_order (a handler's next port operation waits for the enqueue of the current one) this is the causal order of the property, because in the interleaving semantics 'the send of M1 happens before the send of M3' implies 'M1 is enqueued before M3'; the happens-before relation itself is not a Coq definition.",
     technique="Coq proof (per-step FIFO lemmas + computed instance) + differential bench correspondence + causal oracle",
     ref="DESIGN.md §5 C02, §0"),
@@ -112,9 +112,9 @@ CLAIMS.update({
     technique="Coq proof (inductive invariant, case analysis + lia per operation) + T1 constant translation + oracle-judged scheduled exploration on mirrored source",
     ref="DESIGN.md §5 C13, Appendix B"),
  "C14": dict(
-    text="Coq theorems: a query addresses exactly the accepting connections with mapped requests and consecutive slots in connection order (c14_requests), the requester proceeds only when all replies are in (c14_waits_for_all) and yields them in slot = connection order (c14_yields_in_connection_order), a reply fills exactly its slot (c14_reply_matched); CachedRwLock: after a write through any clone every clone's next read/write_scratchpad starts from the updated list, scratchpad edits are local, the epoch invariant holds in every reachable state (c14_clones_*); instance under all short schedules. Tie: query benches with 0..6 connections, filters, maps, nested queries and capacity-1 replier mailboxes on 1..16 threads vs Sim.v + reply oracle; op sequences on the verbatim cached_rw_lock.rs vs CachedRw.v. Broadcast of one query (Broadcast.v: QueryBroadcaster::broadcast, BroadcasterInner::futures, BroadcastFuture::new/poll/drop and the lazily consumed reply iterator over an abstract task set and wake sink): for every number of repliers, every sequence of queries and filters, every order of completions / failures / spurious wake-ups between polls and inside the polls of other sub-futures, an Ok result carries exactly the replies of the accepting repliers of this query in connection order (c14_broadcast_replies), the slot/counter invariant is kept by every operation (c14_broadcast_invariant), and a Pending multi-replier broadcast leaves the parent armed so that the next wake-up notifies it and is recorded (c14_broadcast_pending_armed, c14_broadcast_wake_notifies, c14_broadcast_wake_recorded); tied to the code by running the verbatim broadcaster.rs with the real task_set.rs and diatomic-waker on the same scripted scenarios.",
-    note=SIMNOTE + "The lock-free implementation of TaskSet (util/task_set.rs) under truly concurrent wake-ups is NOT modelled: Broadcast.v uses an abstract task set driven sequentially (wake-ups between polls and inside sub-future polls), and the real TaskSet is only exercised sequentially by the scripted scenarios and concurrently by the simh benches on 1..16 threads; the theorems exclude runs that hit the model's loop bound (result BRFuel, never observed); connect-during-run is covered only by the CachedRw theorems.",
-    technique="Coq proof (query step lemmas + CachedRw invariant) + differential bench / op-sequence correspondence + reply oracle + scripted broadcast scenarios on mirrored broadcaster.rs vs Broadcast.v",
+    text="Coq theorems: a query addresses exactly the accepting connections with mapped requests and consecutive slots in connection order (c14_requests), the requester proceeds only when all replies are in (c14_waits_for_all) and yields them in slot = connection order (c14_yields_in_connection_order), a reply fills exactly its slot (c14_reply_matched); CachedRwLock: after a write through any clone every clone's next read/write_scratchpad starts from the updated list, scratchpad edits are local, the epoch invariant holds in every reachable state (c14_clones_*); instance under all short schedules. Tie: query benches with 0..6 connections, filters, maps, nested queries and capacity-1 replier mailboxes on 1..16 threads vs Sim.v + reply oracle; op sequences on the verbatim cached_rw_lock.rs vs CachedRw.v. Broadcast of one query (Broadcast.v: QueryBroadcaster::broadcast, BroadcasterInner::futures, BroadcastFuture::new/poll/drop and the lazily consumed reply iterator over an abstract task set and wake sink): for every number of repliers, every sequence of queries and filters, every order of completions / failures / spurious wake-ups between polls and inside the polls of other sub-futures, an Ok result carries exactly the replies of the accepting repliers of this query in connection order (c14_broadcast_replies), the slot/counter invariant is kept by every operation (c14_broadcast_invariant), and a Pending multi-replier broadcast leaves the parent armed so that the next wake-up notifies it and is recorded (c14_broadcast_pending_armed, c14_broadcast_wake_notifies, c14_broadcast_wake_recorded); tied to the code by running the verbatim broadcaster.rs with the real task_set.rs and diatomic-waker on the same scripted scenarios. The lock-free task set (TaskSetConc.v: every shared access of Task::wake_by_ref, take_scheduled, TaskIterator::next and the iterator's drop as one step, any number of wakers, spurious compare_exchange_weak failures, SC interleavings): an inductive invariant (c14_taskset_invariant) gives that the linked lists are never corrupted (c14_taskset_no_panic) and that no completed wake-up is lost (c14_taskset_no_lost_wake, c14_taskset_quiescent_woken_is_scheduled); tied to the verbatim task_set.rs by step-by-step replay of every explored trace.",
+    note=SIMNOTE + "Broadcast.v uses an ABSTRACT task set driven sequentially; the lock-free TaskSet has its own model and proof (TaskSetConc.v) under sequential consistency, but the two are not composed formally and the countdown/notification law of the concurrent task set is not proved; the theorems exclude runs that hit the model's loop bound (result BRFuel, never observed); connect-during-run is covered only by the CachedRw theorems.",
+    technique="Coq proof (query step lemmas + CachedRw invariant) + differential bench / op-sequence correspondence + reply oracle + scripted broadcast scenarios on mirrored broadcaster.rs vs Broadcast.v + task-set trace replay in TaskSetConc.v",
     ref="DESIGN.md §5 C14"),
  "C19": dict(
     text="Coq theorems (task level): in every reachable state of TaskSM the invariant holds, and once every handle is gone the memory has been freed exactly once, the future dropped exactly once, nothing accessed after release (c19_cancel_releases, c19_no_leak_no_double_free) - cancellation racing with wakers and a runner is what an executor drop does to each task. Tie: cancel-heavy schedules on the verbatim task.rs; the Simulation is dropped at the end of fault / deadlock / hierarchy / scheduling benches (pending actions, blocked senders, pending queries) on 1..16 threads: every added model dropped exactly once, no model code afterwards, the drop returns (watchdog).",
